@@ -95,6 +95,12 @@ Proof.
   destruct (assoc_mem nm (globs s) || assoc_mem nm (nodefs s)); reflexivity.
 Qed.
 
+Lemma esig_note_G : forall p k s, env (note_G p k s) = env s.
+Proof.
+  intros p k s. unfold note_G. destruct p; try reflexivity. destruct k; try reflexivity.
+  destruct (_ && _); [apply esig_note_nodefine | reflexivity].
+Qed.
+
 Lemma member_assign_vsig : forall keys j locl l nw v, vsig_of (member_assign keys j locl l nw v) = vsig_of v.
 Proof.
   intros keys j locl l nw v. destruct keys as [|k rest]; [reflexivity|]. destruct v as [vl vf vs vp vg vr ve].
@@ -214,11 +220,19 @@ Section StatSig.
     - cbn [assign_one] in H. inv_bind H. apply ce_nil_sig in Hb. inv_bind H. apply ce_nil_sig in Hb0.
       assert (E0 : esig (env a0) = esig (env s)) by congruence.
       destruct (negb (simple_str (exp_name t2))); [ok_inj H; exact E0|].
+      destruct (beq_bytes (exp_name t1) (c_bang :: Symbols.s_G)).
+      { destruct (find_global (exp_name t2) flv slv _ (globs a0)) as [v|].
+        - ok_inj H. destruct (v_empty v && _); [|exact E0].
+          rewrite esig_update_var; [exact E0|]. intros [l0 f s1 p g r0 e0]. reflexivity.
+        - ok_inj H. exact E0. }
       destruct (split_dot (exp_name t1)) as [|p0 ps]; [ok_inj H; exact E0|].
       destruct (negb (forallb simple_str ps)); [ok_inj H; exact E0|].
-      destruct (find_loc_var (env a0) (trim_bang p0) _ 0) as [[[d i] v]|].
-      + ok_inj H. rewrite esig_update_var; [exact E0|]. intros v0. apply member_assign_vsig.
-      + destruct (find_global (trim_bang p0) flv slv _ (globs a0)); ok_inj H;
+      destruct (if beq_bytes (trim_bang p0) Symbols.s_G then ps else []) as [|g0 gs].
+      + destruct (find_loc_var (env a0) (trim_bang p0) _ 0) as [[[d i] v]|].
+        * ok_inj H. rewrite esig_update_var; [exact E0|]. intros v0. apply member_assign_vsig.
+        * destruct (find_global (trim_bang p0) flv slv _ (globs a0)); ok_inj H;
+            (rewrite esig_update_var; [exact E0|]; intros v0; apply member_assign_vsig).
+      + destruct (find_global g0 flv slv _ (globs a0)); ok_inj H;
           (rewrite esig_update_var; [exact E0|]; intros v0; apply member_assign_vsig).
   Qed.
 
@@ -294,7 +308,7 @@ Proof.
         split; [exact Hb|]. cbn [option_map]. rewrite Hfi. reflexivity.
       * injection H as <- <- <-. rewrite esig_note_nodefine. auto.
       * inv_bind H. destruct a as [[s1 f1] pv1]. injection H as <- <- <-. apply IHe in Hb. destruct Hb. auto.
-      * inv_bind H. inv_bind H. injection H as <- <- <-. apply Hnil in Hb. apply Hnil in Hb0. split; [congruence|reflexivity].
+      * inv_bind H. inv_bind H. injection H as <- <- <-. apply Hnil in Hb. apply Hnil in Hb0. rewrite esig_note_G. split; [congruence|reflexivity].
       * inv_bind H. inv_bind H. injection H as <- <- <-. apply Hnil in Hb. apply Hnils in Hb0. split; [congruence|reflexivity].
     + (* cg_func *)
       intros flv e s s' fi H. cbn [cg_func] in H. destruct e; try discriminate.
